@@ -41,6 +41,28 @@ CHECKS = {
         note=POOL_NOTE),
 }
 
+EYE_NOTE = ("Trusted base: tokio paused clock (virtual time exact at 1 ms); the hook re-export exposes the unmodified "
+            "EyeballSet; the harness reference simulation, which is only used for exact comparison when it reports no tie.")
+
+CHECKS.update({
+    "C10": dict(engine="eyeballs", ref="§5 C10/C11, §4 E4",
+        technique="property-based testing in virtual time: exhaustive small-scope enumeration plus random attempt sets against statement-derived necessary conditions and a differential reference (discrete-event simulation)",
+        text="Every combination of up to 2 (quick) / 3 (thorough) scripted attempts over the outcome/latency/stagger/timeout/concurrency grid is enumerated, plus random sets of up to 8 attempts: the result must be the first success, failure only after every candidate failed (first failure), timeout only at the deadline without an earlier success, no-progress only for the empty set; tie-free cases must equal the reference exactly.",
+        note=EYE_NOTE),
+    "C11": dict(engine="eyeballs", ref="§5 C10/C11, §4 E4",
+        technique="property-based testing in virtual time: recorded first-poll instants of scripted attempts checked against ordering/pacing/deadline conditions and a differential reference",
+        text="Same domain as C10: attempts start in index order, each at most once, at most the configured number at t=0, each later start justified by an elapsed stagger delay, a failure or idleness and never later than the stagger tick; the operation ends by the deadline; tie-free cases must reproduce the reference start instants exactly.",
+        note=EYE_NOTE),
+    "C16": dict(engine="addrsort", ref="§5 C16, §4 E7",
+        technique="exhaustive small-scope enumeration plus property-based testing against an independent specification (stable partition); end-to-end differential leg over loopback listeners",
+        text="All IPv4/IPv6 family patterns up to length 8 (quick) / 12 (thorough) for the four local-binding combinations, exhaustively, plus random lists with duplicates: output is a permutation, first/second element and remainder order equal the specification, set_port applies to every address; through TcpTransport with a scripted resolver the accepted peer is the first live address of the specified order.",
+        note="Trusted base: the hook wrappers call the crate-private routines unchanged; loopback networking for the end-to-end leg (refused connects are immediate compared with the >= 570 ms stagger)."),
+    "C20": dict(engine="sni", ref="§5 C20, §4 E10",
+        technique="grammar-based property testing of the public ValidateSNI layer against an independent reference predicate (two-directional: never forwarded on mismatch, never rejected on match)",
+        text="Requests over all http::Version constants x Host header x URI authority x letter case x port x IPv4/IPv6 literals x server name (absent/equal/equal modulo case/different) x TLS info; forwarded/rejected outcome and the validated flag observed by a recording inner service must equal the reference predicate wherever the property constrains it.",
+        note="Trusted base: the reference predicate in the harness (about 20 lines, from the statement); server names are generated as a TLS stack reports them (DNS names, never bracketed)."),
+})
+
 NOT_YET = {
     "C01": "check not built yet (engine E2 netsim in progress)",
     "C07": "check not built yet (engine E2 netsim in progress)",
